@@ -160,7 +160,7 @@ CLAIMED.update({
                 "container-header readers (sync and async) and the writer's CRC taken from its CrcWriter; dec∘enc = id for all CRAM code tables; "
                 "Encoder->CompressionMethod labelling; the 28 data series and the guard edges that dominate each accessor call agree between "
                 "slice reader and slice writer (guard signatures); AP delta symmetry; append-buffer discipline of the header/token readers. Record equality and codec correctness are not decided.",
-        "note": "trusts flate2 CRC and md5; symmetric read_x/write_x structure is floor-checked; three guard asymmetries are tabled with reasons; known finding F31 (quality-score-array flag set for QUAL * records: noodles' own output unreadable) by exact key (rule R9); genuine defect F35 (fqzcomp block raw size) repaired (fix: 56b15b8; rule R10); genuine defects F38 (unnamed record shifts the names after it; fix: c0147a7; R11) and F39 (version 3.0 declared with fqzcomp / a 3.1 default encoder; fix: c5a1551; R12) repaired",
+        "note": "trusts flate2 CRC and md5; symmetric read_x/write_x structure is floor-checked; three guard asymmetries are tabled with reasons; known finding F31 (quality-score-array flag set for QUAL * records: noodles' own output unreadable) by exact key (rule R9); genuine defect F35 (fqzcomp block raw size) repaired (fix: 56b15b8; rule R10); genuine defects F38 (unnamed record shifts the names after it; fix: c0147a7; R11) and F39 (version 3.0 declared with fqzcomp / a 3.1 default encoder; fix: c5a1551; R12) repaired; F40 (TLEN sign by file order; fix: 19a8e71; R13) repaired",
         "technique": "static analysis: evaluated constants, guard dominance, HIR match-table agreement, guard-signature comparison of sibling codecs (MIR edge dominance)",
         "design_ref": "§5 C07",
     },
